@@ -121,5 +121,20 @@ func runGraphs(c *Ctx, prop string, width, depth int) error {
 			w.Count("repeat." + kind)
 		}
 	}
+	// ---- cross-field groups (C02: "group clauses last", "exactly one clause per violated rule instance")
+	if prop == "C02" {
+		for i := 0; i < n/6; i++ {
+			src, exps, cell := wgs2Case(c.Rng)
+			call := &walkCall{Entry: "struct", Src: src}
+			spec := "SNil"
+			if len(exps) > 0 {
+				spec = "SExpect false " + galExps(exps)
+			}
+			term, desc := call.caseTerm([]string{spec, "SNoPanic"})
+			desc["expected_groups"] = len(exps)
+			w.Add(term, desc, "groups:"+cell)
+			w.Count("groups")
+		}
+	}
 	return w.Flush()
 }
